@@ -69,6 +69,12 @@ def child_main(case):
         kind = call.get("input", "list")
         if kind == "list":
             return items
+        if kind == "tuple":
+            return tuple(items)
+        if kind == "iter":
+            return iter(items)
+        if kind == "keys":
+            return dict.fromkeys(items).keys()
         if kind == "range":
             return range(ci * 1000, ci * 1000 + n)
         delays = call.get("delays") or [0]
